@@ -39,7 +39,7 @@ ASSUMPTIONS = [
     "failure: the value did not get through to the caller",
     "objects exist; reads of missing objects are not generated",
 ]
-EXAMPLES = {"quick": 80, "thorough": 2000}
+EXAMPLES = {"quick": 80, "thorough": 8000}
 MIN_NONTRIVIAL = {"quick": 150, "thorough": 2000}
 
 
